@@ -22,6 +22,7 @@ import (
 
 	"github.com/tink-crypto/tink-go/v2/aead"
 	"github.com/tink-crypto/tink-go/v2/insecurecleartextkeyset"
+	"github.com/tink-crypto/tink-go/v2/internal/internalapi"
 	"github.com/tink-crypto/tink-go/v2/key"
 	"github.com/tink-crypto/tink-go/v2/keyset"
 	tinkpb "github.com/tink-crypto/tink-go/v2/proto/tink_go_proto"
@@ -46,7 +47,7 @@ func TestMain(m *testing.M) {
 	probes := []string{"fault-free-accepted", "accepted-although-faulted-equal", "accepted-although-faulted-different", "accepted-fewer-keys-than-written",
 		"fallback-key-reached", "unknown-type-url-key-accepted", "stub-key-in-keyset", "weak-key-reached", "weak-refused-at-reader", "weak-refused-at-factory",
 		"duplicate-id-image-by-block-duplication", "round-trip-on-read-back-handle", "derived-keyset-exercised", "cut-image-accepted", "torn-write-prefix-read-back",
-		"splice-accepted", "keyset-info-flip-accepted", "ciphertext-flip-rejected", "public-only-primitives-built", "pooled-key-in-keyset", "produce-error-on-accepted-handle"}
+		"splice-accepted", "changed-nonprimary-key-exercised-alone", "keyset-info-flip-accepted", "ciphertext-flip-rejected", "public-only-primitives-built", "pooled-key-in-keyset"}
 	for _, r := range rejectRules {
 		if r != "inner-syntax" { // needs a valid ciphertext around garbage: no storage fault gets there
 			probes = append(probes, "rejected:"+r)
@@ -56,22 +57,21 @@ func TestMain(m *testing.M) {
 	stubkm.Register()
 	initPools()
 	core.Main(m, prop, "atrest", map[string]string{
-		"keyset writers (binary, JSON), insecurecleartextkeyset.Write, Handle.WriteWithAssociatedData / WriteWithNoSecrets":                 "real",
-		"keyset readers (binary, JSON), insecurecleartextkeyset.Read, keyset.ReadWithAssociatedData / ReadWithNoSecrets":                    "real",
-		"keyset validation, handle construction, per-type key parsers (protoserialization), fallback keys":                                 "real",
-		"factories and primitives of every class":                                                                                          "real",
-		"key-encryption AEAD":                                                                                                              "real (in-tree AES256-GCM from a one-key keyset)",
-		"storage device / medium / reading source":                                                                                         "stub (simio.Device, fault transforms, simio.Source)",
-		"crypto/rand":                                                                                                                      "stub (simrng; stdlib-internal randomness seeded per run via testing/cryptotest)",
-		"custom key type":                                                                                                                  "stub (stubkm key managers; real legacy adapters)",
-		"image classifier (why an image should be rejected)":                                                                               "oracle only",
+		"keyset writers (binary, JSON), insecurecleartextkeyset.Write, Handle.WriteWithAssociatedData / WriteWithNoSecrets": "real",
+		"keyset readers (binary, JSON), insecurecleartextkeyset.Read, keyset.ReadWithAssociatedData / ReadWithNoSecrets":    "real",
+		"keyset validation, handle construction, per-type key parsers (protoserialization), fallback keys":                  "real",
+		"factories and primitives of every class":  "real",
+		"key-encryption AEAD":                      "real (in-tree AES256-GCM from a one-key keyset)",
+		"storage device / medium / reading source": "stub (simio.Device, fault transforms, simio.Source)",
+		"crypto/rand":     "stub (simrng; stdlib-internal randomness seeded per run via testing/cryptotest)",
+		"custom key type": "stub (stubkm key managers; real legacy adapters)",
+		"image classifier (why an image should be rejected)": "oracle only",
 	})
 }
 
 var outerT *testing.T
 
 var dbgSigs = os.Getenv("ATREST_SIGS") != ""
-
 
 func TestAtRest(t *testing.T) {
 	outerT = t
@@ -84,9 +84,14 @@ func TestAtRest(t *testing.T) {
 var (
 	cheap  = map[string][]catalog.Entry{}
 	costly = map[string][]catalog.Entry{}
+	// a costly (pooled) entry is drawn with probability 1/(costlyOdds+1)
+	costlyOdds = 9
 )
 
 func initPools() {
+	if core.Thorough() {
+		costlyOdds = 2
+	}
 	for _, e := range catalog.All() {
 		c := string(e.Class)
 		if e.Variant == catalog.VRawPrehashID {
@@ -242,10 +247,32 @@ func (w *world) freshID(used map[uint32]bool) uint32 {
 
 func (w *world) drawEntry(class, label string) catalog.Entry {
 	t := w.t
-	if len(costly[class]) > 0 && (len(cheap[class]) == 0 || rapid.IntRange(0, 9).Draw(t, label+"Costly") == 9) {
-		return costly[class][rapid.IntRange(0, len(costly[class])-1).Draw(t, label+"CostlyEntry")]
+	// key type first (so that a key type with few catalog entries is drawn as often as one with many), then the entry
+	pool := cheap
+	if len(costly[class]) > 0 && (len(cheap[class]) == 0 || rapid.IntRange(0, costlyOdds).Draw(t, label+"Costly") == costlyOdds) {
+		pool = costly
 	}
-	return cheap[class][rapid.IntRange(0, len(cheap[class])-1).Draw(t, label+"Entry")]
+	types := keyTypes(pool[class])
+	kt := types[rapid.IntRange(0, len(types)-1).Draw(t, label+"KeyType")]
+	var l []catalog.Entry
+	for _, e := range pool[class] {
+		if e.KeyType == kt {
+			l = append(l, e)
+		}
+	}
+	return l[rapid.IntRange(0, len(l)-1).Draw(t, label+"Entry")]
+}
+
+func keyTypes(l []catalog.Entry) []string {
+	var out []string
+	seen := map[string]bool{}
+	for _, e := range l {
+		if !seen[e.KeyType] {
+			seen[e.KeyType] = true
+			out = append(out, e.KeyType)
+		}
+	}
+	return out
 }
 
 // buildKeyset draws a keyset and returns the handle the writer is given.
@@ -336,6 +363,10 @@ func (w *world) buildKeyset(label string, maxKeys int, fixedClass string) *built
 	h, err := insecurecleartextkeyset.Read(&keyset.MemReaderWriter{Keyset: ks})
 	if err != nil {
 		t.Fatalf("harness: drawn keyset does not parse: %v", err)
+	}
+	// this read of an in-memory Keyset message is itself a reader call under C14
+	if sh := w.wellFormed(h, "in-memory keyset ("+label+")"); sh != nil && sh.n != len(ks.Key) {
+		w.r.Violation("C14/handle-drops-keys", fmt.Sprintf("in-memory keyset holds %d keys, the accepted handle %d", len(ks.Key), sh.n))
 	}
 	if w.cfg.prot == "public" {
 		hp, err := h.Public()
@@ -645,7 +676,11 @@ func (w *world) check(img []byte, readProt string, sc srcCfg, orig *shape, writt
 	if sh == nil {
 		return "accepted-malformed"
 	}
-	if sh.n != nImg {
+	unparsed := len(rules) > 0 && (rules[0] == "syntax" || rules[0] == "aead" || rules[0] == "inner-syntax")
+	if unparsed {
+		// the harness's own strict parse fails where the reader succeeded: a more lenient reader is not forbidden
+		r.Probe("accepted-where-strict-parse-fails")
+	} else if sh.n != nImg {
 		r.Violation("C14/handle-drops-keys", fmt.Sprintf("%s: the stored keyset holds %d keys, the accepted handle %d", ctx, nImg, sh.n))
 	}
 	outcome := "accepted"
@@ -668,7 +703,11 @@ func (w *world) check(img []byte, readProt string, sc srcCfg, orig *shape, writt
 			r.Probe("accepted-fewer-keys-than-written")
 		}
 	}
+	w.restore(h)
 	res := w.exercise(h, sh, written, ctx, 0)
+	if outcome == "accepted-different" {
+		w.changedKeys(sh, orig, ctx)
+	}
 	if w.weakExpect != "" {
 		r.Probe("weak-refused-at-factory")
 	}
@@ -681,6 +720,59 @@ func (w *world) check(img []byte, readProt string, sc srcCfg, orig *shape, writt
 		return outcome + "+prim"
 	}
 	return outcome
+}
+
+// restore writes an accepted handle out again through the real writers (to a
+// scratch device): an accepted handle is "well-formed" only if the library
+// can handle it; errors are fine, a panic is not.
+func (w *world) restore(h *keyset.Handle) {
+	w.guard("rewrite-accepted-handle", func() {
+		wr := w.writer(simio.NewDevice(-1, false))
+		_ = insecurecleartextkeyset.Write(h, wr)
+		_ = h.WriteWithNoSecrets(w.writer(simio.NewDevice(-1, false)))
+		_ = h.WriteWithAssociatedData(w.writer(simio.NewDevice(-1, false)), w.kek, w.ad)
+		_ = h.String()
+	})
+}
+
+// changedKeys: the keyset-level primitive only produces with the primary; an
+// ENABLED non-primary key the fault has changed (it equals no key that was
+// written) is exercised as the only key of a handle of its own, built through
+// the public manager API from the accepted entry.
+func (w *world) changedKeys(sh, orig *shape, ctx string) {
+	for i, k := range sh.keys {
+		if i == sh.primary || sh.statuses[i] != keyset.Enabled {
+			continue
+		}
+		known := false
+		w.guard("key-equal", func() {
+			for _, ok := range orig.keys {
+				if keyEqual(k, ok) {
+					known = true
+				}
+			}
+		})
+		if known {
+			continue
+		}
+		var h1 *keyset.Handle
+		var err error
+		w.guard("manager-add-accepted-key", func() {
+			m := keyset.NewManager()
+			if _, err = m.AddKeyWithOpts(k, internalapi.Token{}, keyset.AsPrimary()); err == nil {
+				h1, err = m.Handle()
+			}
+		})
+		if err != nil || h1 == nil {
+			continue
+		}
+		s1 := w.wellFormed(h1, ctx+" (changed key alone)")
+		if s1 == nil {
+			continue
+		}
+		w.r.Probe("changed-nonprimary-key-exercised-alone")
+		w.exercise(h1, s1, nil, fmt.Sprintf("%s (changed key %d alone)", ctx, i), 1)
+	}
 }
 
 // ---------------------------------------------------------------------------
@@ -725,7 +817,11 @@ func runAtRest(t *rapid.T) {
 	orig := shapeOf(b.h)
 	kt := dedupe(sorted(b.keyTypes))
 
-	nExp := rapid.IntRange(1, 6).Draw(t, "experiments")
+	maxExp := 6
+	if core.Thorough() {
+		maxExp = 12
+	}
+	nExp := rapid.IntRange(1, maxExp).Draw(t, "experiments")
 	for x := 0; x < nExp; x++ {
 		if x > 0 {
 			r = core.Begin(t)
@@ -851,7 +947,8 @@ func (w *world) experiment(b *built, medium []byte, orig *shape) (string, bool) 
 			counts[cls[i]+":"+strings.SplitN(o, ":", 2)[0]]++
 		}
 		fired = append(fired, applied{fCut, "all-boundaries", fmt.Sprintf("%d cuts", len(cuts))})
-		outcomes = append(outcomes, strings.Join(core.SortedKeys(counts), ","), fmt.Sprintf("acc%d", min(acc, 3)))
+		r.Logf("cut outcomes: %v", counts)
+		outcomes = append(outcomes, fmt.Sprintf("acc%d", min(acc, 3)))
 	} else {
 		img := medium
 		if plan == "medium" {
@@ -923,9 +1020,17 @@ func (w *world) experiment(b *built, medium []byte, orig *shape) (string, bool) 
 		}
 	}
 
+	// one fault: kind and target class; several: the kinds only (keeps the signature space countable)
 	var fs []string
 	for _, a := range fired {
-		fs = append(fs, a.kind+"@"+a.target)
+		if len(fired) == 1 {
+			fs = append(fs, a.kind+"@"+a.target)
+		} else {
+			fs = append(fs, a.kind)
+		}
+	}
+	if len(fs) > 1 {
+		fs = dedupe(sorted(fs))
 	}
 	prot := w.cfg.prot
 	if readProt != prot {
